@@ -227,3 +227,23 @@ def snapshot_covers_broadcast(ctx):
     glob = [n for n in body_walk(f.node) if isinstance(n, ast.Assign) and src(n.targets[0]) == 'modules' and 'secnode' in src(n.value)]
     ctx.check(any('secnode.export' in src(n.value) for n in glob), f'{f.qualname}:global scope is the exported set', f.node,
               'modules = exported modules', 'a global activate does not iterate secnode.export', f)
+
+
+@rule('C08.T1', min_instances=3, tier='thorough')
+def lock_order_acyclic(ctx):
+    """thorough: the interprocedural lock-order graph (dispatcher lock, module access/update locks, connection send
+    lock, communicator lock, client lock, state machine lock) is acyclic; the snapshot under the update lock (R2)
+    adds Dispatcher._lock -> Module.updateLock -> RequestHandler.send_lock"""
+    from sa.locks import LockGraph, name
+    g = LockGraph(ctx.m)
+    for (a, b), w in sorted(g.edges.items(), key=lambda x: (name(x[0][0]), name(x[0][1]))):
+        ctx.ok(f'lock order {name(a)} -> {name(b)}', None, w)
+    cyc = g.cycles()
+    ctx.check(not cyc, 'lock-order graph is acyclic', None, f'{len(g.edges)} edges over {len(g.locks)} locks, no cycle '
+              f'({g.imprecise} call sites inside lock regions resolved by name only)',
+              'cycle(s) in the lock-order graph: ' + '; '.join(' -> '.join(name(x) for x in c + [c[0]]) for c in cyc) +
+              ' - two threads taking the locks in opposite order dead-lock (e.g. activate vs. an update from a poll thread)')
+    want = ('Dispatcher._lock', 'Module.updateLock')
+    have = {(name(a), name(b)) for a, b in g.edges}
+    ctx.check(want in have, 'activate holds the dispatcher lock around the update lock', None, 'edge Dispatcher._lock -> Module.updateLock present',
+              'expected edge Dispatcher._lock -> Module.updateLock not found (call resolution of handle_request changed?)')
